@@ -507,6 +507,7 @@ func TestVerifC05Close(t *testing.T) {
 		cc := &c5Ctx{pres: map[[32]byte][32]byte{}, exps: map[string]int64{}}
 		lastPre := map[string][32]byte{}
 		lastExp := map[string]uint32{}
+		ndup := 0
 		npre := 0
 
 		out.Emit(vLine{vEv: vEv{A: "Reset", P: "A"}, Type: tname, Opener: opener, File: filepath.Base(f),
@@ -547,7 +548,13 @@ func TestVerifC05Close(t *testing.T) {
 				var expiry uint32
 				key := fmt.Sprintf("%s/%d", e.P, e.X)
 				if lp, ok := lastPre[key]; ok && e.Y == 1 {
-					pre, expiry = lp, lastExp[key] // equal hash/amount/expiry duplicate
+					// equal-hash duplicate: alternately fully identical and with
+					// a different CLTV expiry
+					pre, expiry = lp, lastExp[key]
+					ndup++
+					if ndup%2 == 1 {
+						expiry += 9
+					}
 				} else {
 					npre++
 					pre[0], pre[1], pre[2] = byte(npre), byte(npre>>8), 0x5a
